@@ -657,6 +657,8 @@ func (t *Tree) Compile(file string, args []string, out io.Writer) (err error) {
 	}
 	/* sort imports to satisfy gofmt */
 	slices.Sort(t.Imports)
+	/* a package the grammar imports under its own name may be one the parser imports anyway */
+	t.Imports = slices.Compact(t.Imports)
 
 	/* second pass */
 	for _, n := range slices.Collect(t.Iterator()) {
